@@ -31,7 +31,7 @@ FamExts ==
   CASE Fam = "rw"  -> {X("xw", p, k) : p \in Pipes, k \in {1, 2}} \cup {X("xr", p, 1) : p \in Pipes}
                       \cup {X("xc", WFd(p), 0) : p \in Pipes} \cup {X("cancel", 0, 0)}
     [] Fam = "rw2" -> {X("xw", p, 1) : p \in Pipes} \cup {X("xr", p, 2) : p \in Pipes}
-                      \cup {X("xc", fd, 0) : fd \in Fds}
+                      \cup {X("xc", fd, 0) : fd \in Fds} \cup {X("xn", 3, 0), X("xn", 4, 0)}
     [] Fam = "sig" -> {X("xs", s, 0) : s \in Sigs} \cup {X("xt", 1, 0), X("cancel", 0, 0)}
     [] Fam = "tmr" -> {X("xt", 1, 0), X("xt", 2, 0), X("cancel", 0, 0)}
     [] Fam = "mix" -> {X("xw", 1, 1), X("xs", 1, 0), X("xt", 1, 0), X("xc", 3, 0), X("cancel", 0, 0)}
